@@ -3,6 +3,7 @@
 package pipeline
 
 import (
+	"encoding/json"
 	"github.com/buildkite/go-pipeline/internal/env"
 	"github.com/buildkite/go-pipeline/ordered"
 	"github.com/buildkite/interpolate"
@@ -13,6 +14,7 @@ import (
 func init() {
 	vpRegister("c10_envblock", vpH_c10_envblock)
 	vpRegister("c10_escapes", vpH_c10_escapes)
+	vpRegister("c10_items", vpH_c10_items)
 }
 
 // vpEnvModel is the oracle's environment: a list of pairs with the caller
@@ -249,4 +251,31 @@ func vpH_c10_escapes() {
 		vpAssert(later == "l "+wantV, "later entries see the expanded value")
 		vpAssert(p.Steps[0].(*CommandStep).Command == "c "+wantV, "steps see the expanded value")
 	}
+}
+
+// An env block built from a caller's list of entries (MapFromItems) is the
+// pipeline's own: interpolating the pipeline rewrites the block in place but
+// leaves the caller's list as it was, so a second pipeline built from the same
+// list starts from the same definition.
+func vpH_c10_items() {
+	v := vpStr(1, "xy")
+	block := []ordered.TupleSS{{Key: "A", Value: v}, {Key: "${A}_B", Value: "b $A"}, {Key: "C", Value: "$$A"}}
+	if vpBool() { // names that collide after expansion leave a tombstone behind
+		block = append(block, ordered.TupleSS{Key: v + "_B", Value: "dup"})
+	}
+	before := vpSnapshot(block)
+	run := func() (*Pipeline, error) {
+		p := &Pipeline{Env: ordered.MapFromItems(block...), Steps: Steps{&CommandStep{Command: "c $A"}}}
+		return p, p.Interpolate(env.New(), false)
+	}
+	p1, e1 := run()
+	vpAssert(e1 == nil, "the first pipeline interpolates")
+	vpAssert(vpUnchanged(block, before), "interpolating a pipeline leaves the caller's list of env entries as it was")
+	p2, e2 := run()
+	vpAssert(e2 == nil, "a second pipeline built from the same list interpolates")
+	b1, _ := json.Marshal(p1)
+	b2, _ := json.Marshal(p2)
+	vpAssert(vpJEqual(b1, b2), "two pipelines built from the same list of env entries interpolate to the same result")
+	c1 := p1.Steps[0].(*CommandStep).Command
+	vpAssert(c1 == "c "+v, "steps see the expanded value")
 }
